@@ -172,14 +172,44 @@ func renderPreformatted(ctx VueContext, w io.Writer, node *html.Node) error {
 	return nil
 }
 
-// hasTextAmongChildren reports whether an element has a child that is text other than white space.
-func hasTextAmongChildren(node *html.Node) bool {
-	for c := node.FirstChild; c != nil; c = c.NextSibling {
-		if c.Type == html.TextNode && strings.Trim(c.Data, " \t\n\r\f") != "" {
-			return true
+// inlineElements are the elements that sit inside a line of text (text-level semantics, replaced
+// content, form controls): white space next to them is white space of that line.
+var inlineElements = map[string]bool{
+	"a": true, "abbr": true, "b": true, "bdi": true, "bdo": true, "big": true, "cite": true, "code": true, "data": true, "del": true, "dfn": true,
+	"em": true, "font": true, "i": true, "ins": true, "kbd": true, "label": true, "mark": true, "q": true, "s": true, "samp": true, "small": true,
+	"span": true, "strike": true, "strong": true, "sub": true, "sup": true, "time": true, "tt": true, "u": true, "var": true, "wbr": true,
+	"img": true, "input": true, "button": true, "select": true, "textarea": true, "svg": true, "math": true, "canvas": true, "video": true,
+	"audio": true, "object": true, "embed": true, "iframe": true, "meter": true, "progress": true, "output": true,
+}
+
+// hasInlineContent reports whether the siblings starting at first contain text other than white
+// space or an inline element (looking through <template> wrappers, which are not written).
+func hasInlineContent(first *html.Node) bool {
+	for c := first; c != nil; c = c.NextSibling {
+		switch c.Type {
+		case html.TextNode:
+			if strings.Trim(c.Data, " \t\n\r\f") != "" {
+				return true
+			}
+		case html.ElementNode:
+			if c.Data == "template" && !helpers.HasAttr(c, "v-keep") {
+				if hasInlineContent(c.FirstChild) {
+					return true
+				}
+				continue
+			}
+			if c.Namespace == "" && inlineElements[c.Data] {
+				return true
+			}
 		}
 	}
 	return false
+}
+
+// hasTextAmongChildren reports whether an element's children form a line of text: text other
+// than white space, or inline elements.
+func hasTextAmongChildren(node *html.Node) bool {
+	return hasInlineContent(node.FirstChild)
 }
 
 func renderNodeWithContext(ctx VueContext, w io.Writer, node *html.Node, indent int) error {
